@@ -99,6 +99,27 @@ CLAIMS["C10"] = dict(
     technique="Coq proof of the byte-level round trip + in-Coq correspondence of real files and loads",
     design_ref="DESIGN.md 4/C10")
 
+CLAIMS["C18"] = dict(
+    category="proof",
+    text=("30 theorems of Properties/C18.v over an exact-rational (Qc) model of the ALGORITHMS of xfunc_stddev / quantile / weighted quantile / "
+          "min / max / covariance / corrcoef (Cube/XStats.v: whole-array bincounts, means looked up through the coordinates and re-binned "
+          "deviations, n/(n-1), interpolation at (n-1)p, cumulative weights + digitize + clipped interpolation, complete-row masks): "
+          "C18_group_spec + C18_coordinate_bijection (each statistic of cell c is computed from exactly the rows whose mixed-radix coordinate is c, "
+          "in row order, for any extents), C18_stddev_spec (reliability-weighted sample variance; unweighted = ddof 1; missing rule of C04 plus "
+          "'< 2 valid rows'), C18_quantile_lin / _unique / _spec (linear interpolation on the sorted valid values for every p in [0,1]; the model's "
+          "insertion sort proved a sorted permutation), C18_wq_missing / C18_wq_scale / C18_wq_range (all three at full strength), C18_minmax_spec, "
+          "C18_cov_spec / C18_cov_used_rows / C18_corr_missing_spec (complete rows when ignoring, per pair otherwise; entry missing when either "
+          "column is), C18_formats_* (NaN and (values, validity) reports describe the same cells). Tie W2 on every run: 9 000 (quick) / 40 000 "
+          "(thorough) generated array cubes (N <= 10, cells of 0..4 rows, single-row cells with weights, missing values sorting after the quantile, "
+          "several columns with different missing patterns, float/int/datetime64 facts, both policies, both report formats) run through the REAL "
+          "xcube and through the model inside Coq: masks exactly, values within 1e-9 of the exact rational (the harness squares the real stddev)."),
+    note=("Trusted: Coq kernel + vm_compute; numpy.quantile/cov/corrcoef/sqrt/argsort and binary64 rounding are outside the model (compared within "
+          "tolerance; NumPy's argsort output is checked to be a sorting permutation per case); weighted statistics assume the valid weights of a cell do "
+          "not sum to zero, wq_range assumes positive weights; the weighted quantile's VALUE is specified only by missing rule / scale invariance / range, "
+          "as in the property text - its algorithm is tied by the correspondence. All theorems closed under the global context."),
+    technique="Coq proof over exact rationals (Qc) of the per-cell statistics + in-Coq correspondence with the real array cube + model-free Fraction oracle",
+    design_ref="DESIGN.md 4/C18")
+
 NOT_YET = "check not built yet in this revision (planned: see DESIGN.md section 4)"
 
 
